@@ -744,17 +744,18 @@ Theorem user_level_fallback found global_dir global_cfg :
   cli_config None found global_dir global_cfg =
   match found with
   | FFound p => UseFile p
+  | FErr EConflict => Fatal
   | FErr _ => if global_dir && global_cfg then UseGlobal else UseDefaults
   end.
-Proof. destruct found, global_dir, global_cfg; reflexivity. Qed.
+Proof. destruct found as [p|[]], global_dir, global_cfg; reflexivity. Qed.
 
-(* "both in one directory is an error" does not hold for `regal lint`: the error of FindConfig is
-   discarded by readUserConfig / the switch in lint.go, the run continues with the user-level
-   file or with the defaults *)
-Theorem cli_conflict_is_error_refuted :
+(* "both in one directory is an error" did not hold for `regal lint` at the pinned commit: the
+   error of FindConfig was discarded by readUserConfig / the switch in lint.go, and the run
+   continued with the user-level file or with the defaults (repaired by commit c2a44f9) *)
+Theorem cli_conflict_pinned_refuted :
   exists c0 lv file global_dir global_cfg,
     find_config (fs_of_chain c0 lv file) (start_path lv file) = FErr EConflict /\
-    cli_config None (find_config (fs_of_chain c0 lv file) (start_path lv file)) global_dir global_cfg
+    cli_config_pinned None (find_config (fs_of_chain c0 lv file) (start_path lv file)) global_dir global_cfg
       = UseDefaults.
 Proof. exists both_kinds, [], None, false, false. split; vm_compute; reflexivity. Qed.
 
